@@ -237,6 +237,9 @@ func energyValueRule(c *an.Ctx, fn *ssa.Function) {
 	}
 	// timeslot of the same row
 	tt := fi.Term(tsVal)
+	if in, ok := tsVal.(ssa.Instruction); ok {
+		tt = fi.RefineAt(tt, in)
+	}
 	okTS := false
 	if tt.K == an.KExt && tt.S == "0" && strings.HasSuffix(tt.A[0].Callee(), "glow.UnixToTimeslot") {
 		arg := tt.A[0].A[0]
